@@ -184,11 +184,16 @@ def json_value(rng, depth):
         return rng.choice(["1", "-2.5", "true", "false", "null", '"s"', '"\\u00e9\\n"', '"\\ud83d\\ude00"', "12345678901234567890", "[]", "{}"])
     if rng.chance(1, 2):
         return "[" + ",".join(json_value(rng, depth - 1) for _ in range(rng.range(0, 5))) + "]"
-    return "{" + ",".join('"k%d":%s' % (i, json_value(rng, depth - 1)) for i in range(rng.range(0, 5))) + "}"
+    # keys of every length up to several hundred characters: the writer holds a key across port-buffer flushes
+    klen = rng.choice([0, 0, 0, 10, 60, 300])
+    return "{" + ",".join('"k%d%s":%s' % (i, "x" * klen, json_value(rng, depth - 1)) for i in range(rng.range(0, 5))) + "}"
 
 
 def p_json(rng):
     docs = [json_value(rng, rng.range(2, 6)) for _ in range(rng.range(2, 8))]
+    if rng.chance(1, 2):
+        # one document larger than the port buffer: an array of many small objects with longish keys
+        docs.append("[" + ",".join('{"key-%d-%s":%d,"other%s":[%d,"v"]}' % (i, "y" * rng.choice([5, 40, 120]), i, "z" * rng.choice([1, 30]), i) for i in range(rng.choice([20, 80, 200]))) + "]")
     body = "\n".join(
         "(let* ((x (string->json %s)) (s (json->string x))) (write x) (newline) (write (equal? x (string->json s))) (newline))" % scm_str(d)
         for d in docs)
